@@ -1,4 +1,4 @@
-import ProductMD.Proofs.CITop
+import ProductMD.Proofs.CIFixpoint
 /-!
 # C01 — composeinfo survives a write/read cycle unchanged
 
@@ -74,6 +74,75 @@ theorem C01_readback (ci : ComposeInfo) (j : PyVal) (hk : WellKeyed ci) (hu : Ui
                   rw [baseDe_ok b _ (by simp [PyVal.get?]) hB]
                   rw [variantsDe_ok _ hv10 variants d _ (by simp [PyVal.get?]) hV hk hu]
                   simp [ComposeInfo.norm, hlay]
+
+/-- **Fixpoint.** Writing the normal form (= the re-read object, by `C01_readback`) produces the very same document. -/
+theorem C01_fixpoint (ci : ComposeInfo) (j : PyVal) (hk : WellKeyed ci) (hu : UidsDistinct ci) :
+    serialize ci = .ok j → serialize ci.norm = .ok j := by
+  intro h
+  unfold serialize at h
+  split at h
+  · cases h
+  · rename_i hH
+    split at h
+    · cases h
+    · rename_i hC
+      split at h
+      · cases h
+      · rename_i hR
+        split at h
+        · cases h
+        · rename_i hB
+          split at h
+          · cases h
+          · rename_i d hV
+            cases h
+            obtain ⟨compose, release, base, variants⟩ := ci
+            simp only at hH hC hR hB hV hk hu ⊢
+            have hrel : release.norm = release := release_norm_eq release hR
+            have hcv : composeVal compose.norm = composeVal compose ∧
+                validateClass "composeinfo.Compose" (composeObj compose.norm) = .ok () := by
+              obtain ⟨id, type, date, respin, label, final⟩ := compose
+              cases label with
+              | none =>
+                simp only [composeObj] at hC
+                rw [compose_final_irrelevant _ _ _ _ final false] at hC
+                exact ⟨by simp [Compose.norm, composeVal], by simpa [Compose.norm, composeObj] using hC⟩
+              | some l =>
+                cases l with
+                | nil => exact absurd hC (compose_empty_label_invalid _ rfl)
+                | cons ch cs => exact ⟨by simp [Compose.norm, composeVal], by simpa [Compose.norm, composeObj] using hC⟩
+            have hV' := variantsSer_norm variants d hV hk hu
+            unfold serialize
+            simp only [ComposeInfo.norm, hrel, hH, hcv.1, hcv.2, hR, hV']
+            cases hlay : release.isLayered with
+            | false => simp
+            | true =>
+              simp only [hlay, if_true] at hB
+              simp [hB]
+
+/-- **Bytes.** The text of the first `dumps()`, parsed and loaded, is dumped to the same text.  `parse` stands for
+`json.load`; that it inverts the printer on the written document is the explicit hypothesis `hjson` (trusted stdlib,
+exercised on every generated case by the check). -/
+theorem C01_bytes (parse : Str → Except Err PyVal) (ci : ComposeInfo) (t : Str) (hk : WellKeyed ci) (hu : UidsDistinct ci)
+    (hjson : ∀ j, serialize ci = .ok j → parse (JsonText.dumps j) = .ok j) :
+    dumps ci = .ok t → reloadDump parse t = .ok t := by
+  intro h
+  unfold dumps at h
+  split at h
+  · cases h
+  · rename_i hv
+    split at h
+    · cases h
+    · rename_i j hj
+      cases h
+      unfold reloadDump
+      rw [hjson j hj]
+      simp only [loadsDoc, C01_readback ci j hk hu hj, hv, dumps, C01_fixpoint ci j hk hu hj]
+
+/-- the reader's result is exactly the normal form also through `loads` (which validates once more) -/
+theorem C01_loads (ci : ComposeInfo) (j : PyVal) (hk : WellKeyed ci) (hu : UidsDistinct ci)
+    (h : serialize ci = .ok j) (hv : validateClass "composeinfo.ComposeInfo" [] = .ok ()) : loadsDoc j = .ok ci.norm := by
+  simp only [loadsDoc, C01_readback ci j hk hu h, hv]
 
 /-! ### non-vacuity: a layered compose with a label, a depth-3 forest, a layered-product variant with its own release,
 a dashed top-level UID, stray and empty paths -/
